@@ -190,7 +190,7 @@ fn render(d: &B) {
     core::mem::forget(ps);
 }
 
-//@ props: C03
+//@ props: UNREACHED-C03
 //@ timeout: 1800
 //@ harness: c03_string_1, c03_string_2
 //@ desc: scalar string documents with every well-formed UTF-8 payload of 1 and 2 bytes (all control characters, quote, backslash, DEL, 2-byte characters; 3-byte characters such as U+2028 in the thorough tier): to_string and to_pretty_string are accepted by an independent strict RFC 8259 string reader (no raw control characters, only defined escapes) and decode to the original bytes
@@ -202,7 +202,7 @@ harness!(c03_string_1, render(&B::build(&leaf(K_STR, 1))));
 harness!(c03_string_2, render(&B::build(&leaf(K_STR, 2))));
 
 
-//@ props: C03
+//@ props: UNREACHED-C03
 //@ timeout: 1800
 //@ harness: c03_shapes_a, c03_shapes_b, c03_shapes_c, c03_shapes_d
 //@ desc: [null,true,s1], {k:s1,kk:false}, [[s1],{k:null}], [], {}, [{},[]] with symbolic strings and keys: compact and pretty renderings read back, by the strict reader, as exactly the descriptor (structure, separators, key order, escapes in values and in keys); pretty = compact plus newline and two-space indentation per depth, one member per line, `": "` after keys
@@ -218,7 +218,7 @@ harness!(c03_shapes_d, split1(3, |k| match k {
     _ => render(&B::build(&arr(&[obj(&[], &[]), arr(&[])]))),
 }));
 
-//@ props: C03
+//@ props: UNREACHED-C03
 //@ timeout: 1800
 //@ harness: c03_int_1, c03_int_2, c03_int_3
 //@ desc: integer documents of encoded widths 1, 2 and 3 (zero, all i8/u8 and all i16/u16 values, signed and unsigned representation): the rendering is a strict JSON integer token with exactly that value (no leading zeros, no fraction, minus only for negatives), scalar and inside [n,s1]
@@ -229,7 +229,7 @@ harness!(c03_int_1, render(&B::build(&leaf(K_NUM, 1))));
 harness!(c03_int_2, render(&B::build(&arr(&[leaf(K_NUM, 2), leaf(K_STR, 1)]))));
 harness!(c03_int_3, render(&B::build(&leaf(K_NUM, 3))));
 
-//@ props: C03
+//@ props: UNREACHED-C03
 //@ tier: thorough
 //@ timeout: 7200
 //@ harness: c03_string_3
@@ -239,7 +239,7 @@ harness!(c03_int_3, render(&B::build(&leaf(K_NUM, 3))));
 //@ stubs: parse_value -> panic | drop_in_place -> no-op | String::from_utf8_lossy -> model
 harness!(c03_string_3, render(&B::build(&leaf(K_STR, 3))));
 
-//@ props: C03
+//@ props: UNREACHED-C03
 //@ tier: thorough
 //@ timeout: 7200
 //@ harness: c03_int_5, c03_int_9
@@ -250,7 +250,7 @@ harness!(c03_string_3, render(&B::build(&leaf(K_STR, 3))));
 harness!(c03_int_5, render(&B::build(&leaf(K_NUM, 5))));
 harness!(c03_int_9, render(&B::build(&leaf(K_NUM, 9))));
 
-//@ props: C03
+//@ props: UNREACHED-C03
 //@ timeout: 300
 //@ expect: twin
 //@ desc: vacuity twin: rendering of a 1-byte string claimed never to contain a backslash — must be refuted
